@@ -52,6 +52,7 @@ thread_local! {
 /// initialised memory; the probe's allocator poisons memory that was not requested zeroed, so a run of
 /// poison bytes there means the library handed out uninitialised memory.
 fn inspect_buffer(buf: &[u8], about_to_write: usize) {
+    if cfg!(miri) { return; }   // the interpreter reports reads of uninitialised memory itself
     let hw = HIGH_WATER.with(|h| h.get());
     if buf.len() > hw {
         let fresh = &buf[hw..];
